@@ -63,7 +63,8 @@ func init() {
 		}},
 		{"NewNXActionRegLoad", true, false, func(g *G) (of.Action, *spec.Node) {
 			f, h := g.HeaderField("dst")
-			on, v := g.U16("ofs_nbits"), g.U64("value")
+			on, onWant := g.ofsNbits()
+			v := g.U64("value")
 			if g.Bool("from_range") {
 				first := g.Int("first", 0, 31)
 				last := g.Int("last", first, 31)
@@ -71,7 +72,7 @@ func init() {
 				// the denoted word: ofs<<6 | (n_bits-1)
 				return of.NewNXActionRegLoad(on, f, v), spec.N("nx.reg_load", spec.U("ofs_nbits", uint64(first<<6|(last-first))), spec.U("dst", uint64(h)), spec.U("value", v))
 			}
-			return of.NewNXActionRegLoad(on, f, v), spec.N("nx.reg_load", spec.U("ofs_nbits", uint64(on)), spec.U("dst", uint64(h)), spec.U("value", v))
+			return of.NewNXActionRegLoad(on, f, v), spec.N("nx.reg_load", spec.U("ofs_nbits", uint64(onWant)), spec.U("dst", uint64(h)), spec.U("value", v))
 		}},
 		{"NewNXActionRegMove", true, false, func(g *G) (of.Action, *spec.Node) {
 			s, sh := g.HeaderField("src")
@@ -97,12 +98,12 @@ func init() {
 		}},
 		{"NewOutputFromField", true, false, func(g *G) (of.Action, *spec.Node) {
 			f, h := g.HeaderField("src")
-			on := g.U16("ofs_nbits")
+			on, onWant := g.ofsNbits()
 			if g.Bool("with_max_len") {
 				ml := g.U16("max_len")
-				return of.NewOutputFromFieldWithMaxLen(f, on, ml), spec.N("nx.output_reg", spec.U("ofs_nbits", uint64(on)), spec.U("src", uint64(h)), spec.U("max_len", uint64(ml)))
+				return of.NewOutputFromFieldWithMaxLen(f, on, ml), spec.N("nx.output_reg", spec.U("ofs_nbits", uint64(onWant)), spec.U("src", uint64(h)), spec.U("max_len", uint64(ml)))
 			}
-			return of.NewOutputFromField(f, on), spec.N("nx.output_reg", spec.U("ofs_nbits", uint64(on)), spec.U("src", uint64(h)), spec.U("max_len", 0xffff))
+			return of.NewOutputFromField(f, on), spec.N("nx.output_reg", spec.U("ofs_nbits", uint64(onWant)), spec.U("src", uint64(h)), spec.U("max_len", 0xffff))
 		}},
 		{"NewNXActionCTClear", true, false, func(g *G) (of.Action, *spec.Node) {
 			return of.NewNXActionCTClear(), spec.N("nx.ct_clear")
@@ -394,4 +395,26 @@ func (g *G) ActionList(l string, many int) ([]of.Action, []*spec.Node) {
 		g.Label("action=" + name)
 	}
 	return as, ns
+}
+
+// ofsNbits draws an offset/width word either raw or, as callers do, through the
+// range helper (NewNXRange(first, last).ToOfsBits() / NewNXRangeByOfsNBits), with
+// windows of up to 64 bits anywhere in a 128-bit field. It returns the word handed
+// to the constructor and the word the range denotes: first<<6 | (last-first).
+func (g *G) ofsNbits() (lib, want uint16) {
+	if g.Bool("ofs_nbits_raw") {
+		v := g.U16("ofs_nbits")
+		return v, v
+	}
+	first := g.Int("rng_first", 0, 127)
+	w := g.Int("rng_width", 1, 64)
+	if g.Chance("rng_width_64", 1, 5) {
+		w = 64
+	}
+	g.Label("ofs_nbits_via_range_helper")
+	want = uint16(first<<6 | (w - 1))
+	if g.Bool("rng_by_ofs_nbits") {
+		return of.NewNXRangeByOfsNBits(first, w).ToOfsBits(), want
+	}
+	return of.NewNXRange(first, first+w-1).ToOfsBits(), want
 }
